@@ -35,6 +35,8 @@ def run(ctx):
     for pat_ in pats_:
         for nid in fa.find(lambda s_: _ms("$$th = " + pat_, s_) is not None):
             b_ = _ms("$$th = " + pat_, fa.stmt(nid))
+            if nid in th:
+                continue
             th.append(nid)
             TH, N = src(b_["th"]), src(b_["n"])
     if not th:
@@ -43,7 +45,7 @@ def run(ctx):
         for nid, r_ in rets:
             for pat_ in pats_:
                 b_ = _mx(pat_, r_.value) if r_.value is not None else None
-                if b_ is not None:
+                if b_ is not None and nid not in th:
                     th.append(nid)
                     TH, N = src(r_.value), src(b_["n"])
     ctx.ob("R-SIB", "C17.1", f, "the threshold is the log-likelihood of the n-th of the samples it was given", len(th) == 1, "")
